@@ -2,32 +2,41 @@
   C05 — export followed by load reproduces the structure, on every channel.
 
   Proved, for states of unbounded size, for every format of the library:
-    * Bloom (binary and hex), counting Bloom (binary and hex), expanding / rotating, count-min,
-      cuckoo and counting cuckoo:  `load (export s) = .ok s`  — full equality of the model state
-      (so every query answers identically and a second export gives the same bytes: `_stable`);
-    * the hex channel carries the same payload and the same footer values as the binary channel;
-    * a well-formed state always exports (`_export_ok`), the constructors are well formed, and for
-      the Bloom filter `add_alt` preserves well-formedness.
+    * Bloom (binary and hex), counting Bloom (binary and hex), expanding / rotating, count-min
+      family, cuckoo and counting cuckoo:  `load (export s) = .ok s`  — full equality of the model
+      state, so every query answers identically, geometry and element counts agree, and a second
+      export gives the same bytes (`_stable`);
+    * the hex channel carries the same payload and the same footer values as the binary channel
+      (`C05_bloom_hex_same_payload`, `C05_bloom_hex_same_footer`, `C05_cbf_hex_same_payload`);
+    * what the formats do not store is re-supplied exactly as the property says: the hash function
+      (not part of the model state), the rotating queue limit `q` (`C05_rotating_roundtrip`), the
+      count-min query `mode` = the receiver's class (`C05_cms_roundtrip`), and the cuckoo `template`
+      (fingerprint width, expansion rate, auto-expand, counting flag: `C05_cuckoo_roundtrip`).
   The round-trip theorems are stated for every state whose export *succeeds*; the range conditions
-  on the footer values (est < 2^64, 0 ≤ count < 2^64, …) are therefore consequences of the
-  hypothesis and need not be assumed; `_export_ok` shows the explicit `WF` predicates imply it.
-  What the formats do not store is re-supplied exactly as the property says: the hash function
-  (not part of the model state), the rotating queue limit `q`, the count-min query `mode`, and the
-  cuckoo `template` (fingerprint width, expansion rate, auto-expand, counting flag).
+  on the stored values (est < 2^64, 0 ≤ count < 2^64, 32-bit fingerprints, …) are consequences of
+  that hypothesis (`C05_cuckoo_export_fits`) and `_export_ok` shows that the explicit range
+  predicates (`BloomWF`, `CBFWF`, `ExpandingWF`, `CMSWF`, `CuckooFits`) imply it.
 
-  Hypotheses that are genuinely needed (each is an invariant of reachable states):
-    * Bloom family: `geom est fpr32 = .ok (fpr32, k, m)` — the loader re-derives the geometry
-      from the footer (float32 narrowing is idempotent; checked against the real code by the
-      correspondence suites); `bits.length = ⌈m/8⌉`, `cells.length = m`; cells within uint32;
-    * hex channels: byte values < 256;
-    * count-min: `bins.length = w*d`, bins within int32;
-    * cuckoo: `buckets.length = cap`, bucket sizes ≤ b, b > 0, fingerprints in [1, 2^32), counts
-      < 2^32 (= 1 for the plain filter), `count = Σ counts`, `unique = number of bins`
-      (counting) / 0 (plain).  Fingerprint 0 is excluded: the fixed code never stores it
-      (`Cuckoo.fingerprint` maps 0 to 1).
-
-  Not proved here: preservation of the count-min / counting-Bloom / cuckoo well-formedness by
-  their update operations (those invariants belong to the properties about those operations).
+  Hypotheses that are genuinely needed, each an invariant of reachable states, with the
+  preservation theorems proved here:
+    * Bloom family: `GeomStable geom est fpr32 k m` — the loader re-derives the same geometry from
+      the footer (float32 narrowing is idempotent; this is a fact about the float parameter function
+      `geom`, checked against the real code by the correspondence suites);
+      `bits.length = ⌈m/8⌉` (`C05_bloom_new_wf`, `C05_bloom_add_wf`), byte values < 256 (hex only);
+      `cells.length = m`, cells within uint32 (`C05_cbf_new_wf`, `C05_cbf_add_wf`, `C05_cbf_remove_wf`);
+      expanding / rotating: non-empty, uniform sub-filters (`C05_expanding_new_wf`,
+      `C05_expanding_add_wf`, `C05_expanding_push_subs`, `C05_rotating_add_wf`, `_push_wf`, `_pop_wf`);
+    * count-min: `bins.length = w*d`, bins within int32 (`C05_cms_new_wf`, `C05_cms_add_wf`,
+      `C05_cms_remove_wf`);
+    * cuckoo: `CuckooWF` = table shape (`buckets.length = cap`, bucket sizes ≤ b, b > 0), no stored
+      fingerprint 0 (the fixed code never stores it: `Cuckoo.fingerprint` maps 0 to 1), plain filter
+      counts = 1, and the bookkeeping `count = Σ counts`, `unique = number of bins` (counting) / 0
+      (plain).  `C05_cuckoo_wf_of_inv`: this follows from the table invariant `C15.Inv` and the
+      bookkeeping invariant `Cuckoo.Acct`, which holds initially and is preserved by add / remove /
+      expand for all second hashes and oracles (`C05_cuckoo_acct_step`, `C05_cuckoo_acct_run`), so
+      `C05_cuckoo_roundtrip_reachable` needs no well-formedness hypothesis at all.
+      `C05_cuckoo_loaded_inv`: a loaded filter satisfies `C15.Inv` and the bookkeeping again.
+  Nothing is left as `_partial`.
 -/
 import PyProb.Lemmas.Formats
 import PyProb.Lemmas.WFOps
@@ -759,6 +768,18 @@ example : Cuckoo.load k3 (k3.exportBytes.toOption.getD []) = .ok k3 := by rfl
 private def kc3 : Cuckoo := ⟨true, 3, 2, 500, 2, true, 8, [[(7, 4)], [], [(255, 1), (1, 9)]], 14, 3⟩
 example : CuckooWF kc3 := ⟨⟨rfl, by decide, by decide⟩, by decide, by decide⟩
 example : Cuckoo.load kc3 (kc3.exportBytes.toOption.getD []) = .ok kc3 := by rfl
+
+/-- a reachable plain filter (kicks and a removal included) and a reachable counting filter -/
+example :
+    let c := C15.run (fun x => x / 3) (Cuckoo.new false 2 2 10 2 false 8)
+      [(.add 5, [0, 1]), (.add 77, [1]), (.add 9, [1, 0, 1]), (.remove 5, []), (.add 300, []), (.add 1024, [0, 0, 1])]
+    Cuckoo.load c (c.exportBytes.toOption.getD []) = .ok c :=
+  C05_cuckoo_roundtrip_reachable _ false 2 2 10 2 false 8 (by decide) (by decide) (by decide) _ _ (by rfl)
+example :
+    let c := C15.run (fun x => x / 3) (Cuckoo.new true 2 1 10 2 true 8)
+      [(.add 5, [0, 1]), (.add 5, []), (.add 9, [1, 0, 1]), (.add 7, [0, 1, 1, 0]), (.remove 5, []), (.expand, [])]
+    Cuckoo.load c (c.exportBytes.toOption.getD []) = .ok c :=
+  C05_cuckoo_roundtrip_reachable _ true 2 1 10 2 true 8 (by decide) (by decide) (by decide) _ _ (by rfl)
 
 /-- the excluded case is real: a stored fingerprint 0 (impossible in the fixed code) is lost -/
 example : (Cuckoo.load k3 (({ k3 with buckets := [[(0, 1)], [], []], count := 1 } : Cuckoo).exportBytes.toOption.getD [])).toOption.map
